@@ -29,7 +29,7 @@ struct CompDesc {
 const std::vector<CompDesc>& comps() {
   static const std::vector<CompDesc> v = {
       {"FileGraphWriter", run_writer, {0, 1, 2, 4, 8, 12, 16}, false, 5, 12},
-      {"FileGraph.copy", run_copy, {0, 2, 4, 8, 12, 16}, true, 3, 4},
+      {"FileGraph.copy", run_copy, {0, 2, 4, 8, 12, 16}, true, 3, 6},
       {"FileGraph.fromGraph", run_fromgraph, {2, 4, 8, 12, 16}, true, 3, 4},
       {"FileGraph.fromFile", run_fromfile, {0, 1, 2, 4, 8, 12, 16}, true, 3, 1},
       {"FileGraph.fromFileInterleaved", run_fromfile, {0, 2, 4, 8, 12}, true, 2, 1},
